@@ -8,7 +8,7 @@ import os
 import warnings
 
 from ..absprint import MP, print_module, real_dump, same_tree
-from ..astutil import calls, literal, local_defs
+from ..astutil import const_value, calls, literal, local_defs
 from ..model import AnalysisError, Model, src, walk_own
 from .. import oracles
 
@@ -323,54 +323,78 @@ def static_tables(model, rep, P):
     rep.floor(P + '.EX1', 95)
     # EX2 / TAB1
     sb = model.func(MP + '._suite_body')
-    table = None
-    for n_ in walk_own(sb.node):
-        if isinstance(n_, ast.Assign) and isinstance(n_.value, ast.Dict):
-            table = n_.value
-    if table is None:
-        raise AnalysisError('statement dispatch dict not found in _suite_body')
-    keys = {}
-    for k, v in zip(table.keys, table.values):
-        keys[k.value] = src(v)
-    for name in oracles.classes_of('stmt') + ['match_case']:
-        rep.check(keys.get(name) == 'self.visit_' + name, P + '.EX2', sb.loc(), 'statements[%r] = %s' % (name, keys.get(name)), 'dispatches to its handler',
-                  'statement class %s %s' % (name, 'is missing from the dispatch table (KeyError when printed)' if name not in keys else 'is dispatched to %s' % keys[name]), key=P + '.EX2|' + name)
-    rep.floor(P + '.EX2', 28)
+    keys = None
+    cands = [n_.value for n_ in walk_own(sb.node) if isinstance(n_, ast.Assign)] + [n_.value for n_ in walk_own(sb.node) if isinstance(n_, ast.Subscript)]
+    for c_ in cands:
+        try:
+            v = const_value(model, sb, c_)
+        except (ValueError, TypeError):
+            continue
+        if isinstance(v, dict) and 'If' in v:
+            keys = v
+    if keys is None:
+        rep.note('%s.EX2: no literal statement dispatch table in _suite_body; whether every statement class is printed is decided by the ENUM1 cells' % P)
+    else:
+        for name in oracles.classes_of('stmt') + ['match_case']:
+            rep.check(keys.get(name) == 'self.visit_' + name, P + '.EX2', sb.loc(), 'statements[%r] = %s' % (name, keys.get(name)), 'dispatches to its handler',
+                      'statement class %s %s' % (name, 'is missing from the dispatch table (KeyError when printed)' if name not in keys else 'is dispatched to %s' % keys[name]), key=P + '.EX2|' + name)
+    if keys is not None:
+        rep.floor(P + '.EX2', 28)
     su = model.func(MP + '._suite')
     comp = None
     for n_ in walk_own(su.node):
-        if isinstance(n_, ast.Assign) and isinstance(n_.value, ast.List) and isinstance(n_.targets[0], ast.Name) and 'compound' in n_.targets[0].id:
-            comp = set(literal(n_.value))
+        if isinstance(n_, ast.Compare) and len(n_.ops) == 1 and isinstance(n_.ops[0], (ast.In, ast.NotIn)):
+            try:
+                v = const_value(model, su, n_.comparators[0])
+            except (ValueError, TypeError):
+                continue
+            if isinstance(v, (list, tuple, set)) and 'If' in v:
+                comp = set(v)
     if comp is None:
-        raise AnalysisError('compound_statements list not found in _suite')
-    for name, c in sorted(A.items()):
-        if (c.sort == 'stmt' and c.stmt_list_fields()) or name == 'match_case':
-            rep.check(name in comp, P + '.TAB1', su.loc(), 'compound_statements contains ' + name, 'block layout used', 'compound statement %s is missing: it would be joined to the previous statement with a semicolon' % name, key=P + '.TAB1|' + name)
-    rep.floor(P + '.TAB1', 13)
+        rep.note('%s.TAB1: no literal compound-statement table is consulted in _suite; the block layout of every compound statement is decided by the LAY cells' % P)
+    else:
+        for name, c in sorted(A.items()):
+            if (c.sort == 'stmt' and c.stmt_list_fields()) or name == 'match_case':
+                rep.check(name in comp, P + '.TAB1', su.loc(), 'compound_statements contains ' + name, 'block layout used', 'compound statement %s is missing: it would be joined to the previous statement with a semicolon' % name, key=P + '.TAB1|' + name)
+    if comp is not None:
+        rep.floor(P + '.TAB1', 13)
     # TAB3
     init = model.func('python_minifier.expression_printer.ExpressionPrinter.__init__')
     prec = None
-    for n_ in walk_own(init.node):
-        if isinstance(n_, ast.Assign) and isinstance(n_.targets[0], ast.Attribute) and n_.targets[0].attr == 'precedences':
-            prec = literal(n_.value)
-    if prec is None:
-        raise AnalysisError('precedences table not found')
-    for name in oracles.classes_of('operator', 'unaryop', 'boolop', 'cmpop'):
-        rep.check(name in prec, P + '.TAB3', init.loc(), 'precedences[%r]' % name, 'present', 'operator class %s has no precedence entry (KeyError when printed)' % name, key=P + '.TAB3|' + name)
-    rep.floor(P + '.TAB3', 29)
+    try:
+        prec = const_value(model, init, ast.parse('self.precedences', mode='eval').body)
+    except (ValueError, TypeError):
+        rep.note('%s.TAB3: no literal precedence table self.precedences; operator printing is decided by the ENUM1 cells' % P)
+    if prec is not None:
+        for name in oracles.classes_of('operator', 'unaryop', 'boolop', 'cmpop'):
+            rep.check(name in prec, P + '.TAB3', init.loc(), 'precedences[%r]' % name, 'present', 'operator class %s has no precedence entry (KeyError when printed)' % name, key=P + '.TAB3|' + name)
+    if prec is not None:
+        rep.floor(P + '.TAB3', 29)
     # KEYW
     kwf = model.func('python_minifier.token_printer.TokenPrinter.keyword')
     allowed = soft = None
     for n_ in walk_own(kwf.node):
-        if isinstance(n_, ast.Assert) and isinstance(n_.test, ast.Compare):
-            allowed = set(literal(n_.test.comparators[0]))
-        if isinstance(n_, ast.If) and isinstance(n_.test, ast.Compare) and isinstance(n_.test.comparators[0], ast.List) and \
-                all(isinstance(x, ast.Constant) for x in n_.test.comparators[0].elts):
-            soft = set(literal(n_.test.comparators[0]))
-    missing = set(keyword.kwlist) - (allowed or set())
-    rep.check(allowed is not None and not missing, P + '.KEYW', kwf.loc(), 'keyword() accepts every hard keyword', '%d keywords' % len(allowed or ()), 'keywords %s are rejected by the token printer' % sorted(missing), key=P + '.KEYW|hard')
-    rep.check(soft is not None and soft >= set(keyword.softkwlist), P + '.KEYW', kwf.loc(), 'soft keywords %s' % sorted(soft or ()), 'cover the interpreter\'s soft keyword list',
-              'soft keyword set %s lacks %s of the interpreter\'s soft keywords: a number or string after such a keyword is not separated from it' % (sorted(soft or ()), sorted(set(keyword.softkwlist) - (soft or set()))), key=P + '.KEYW|soft')
+        if isinstance(n_, ast.Compare) and len(n_.ops) == 1 and isinstance(n_.ops[0], (ast.In, ast.NotIn)):
+            try:
+                v = const_value(model, kwf, n_.comparators[0])
+            except (ValueError, TypeError):
+                continue
+            if not isinstance(v, (list, tuple, set)):
+                continue
+            if 'if' in v and 'while' in v:
+                allowed = set(v)
+            elif 'match' in v or 'case' in v:
+                soft = set(v)
+    if allowed is None:
+        rep.note('%s.KEYW: no literal keyword table in TokenPrinter.keyword; every keyword is exercised by the ENUM1 cells' % P)
+    else:
+        missing = set(keyword.kwlist) - allowed
+        rep.check(not missing, P + '.KEYW', kwf.loc(), 'keyword() accepts every hard keyword', '%d keywords' % len(allowed), 'keywords %s are rejected by the token printer' % sorted(missing), key=P + '.KEYW|hard')
+    if soft is None:
+        rep.note('%s.KEYW: no literal soft keyword table in TokenPrinter.keyword; separation after match / case / type is decided by the ENUM2 adjacency cells' % P)
+    else:
+        rep.check(soft >= set(keyword.softkwlist), P + '.KEYW', kwf.loc(), 'soft keywords %s' % sorted(soft), 'cover the interpreter\'s soft keyword list',
+                  'soft keyword set %s lacks %s of the interpreter\'s soft keywords: a number or string after such a keyword is not separated from it' % (sorted(soft), sorted(set(keyword.softkwlist) - soft)), key=P + '.KEYW|soft')
 
 
 QUICK_CHILD = ['Name', 'Int', 'Str', 'Tuple', 'Tuple1', 'Tuple0', 'StarTuple', 'List', 'Dict', 'GeneratorExp', 'NamedExpr', 'Yield', 'YieldFrom', 'Await', 'Lambda', 'IfExp', 'Or', 'And', 'Not',
